@@ -3,6 +3,7 @@ as Coq terms for Engine/EngineCheck.v."""
 from __future__ import annotations
 
 import copy
+import json
 import re
 
 from . import common as C
@@ -104,6 +105,7 @@ def run_history(story: dict, ops, browser=False, per_call_s=10, on_step=None):
             return [{"op": ("init",), "obs": ("exc", exn_kind(e)), "view": None, "error": repr(e)}], None
         recs.append({"op": ("init",), "obs": ("ok",), "view": view(eng), "before": None, "result": eng._current_output})
         names = list(story["passages"].keys())
+        slot = None
         for op in ops:
             before = view(eng)
             kind = op[0]
@@ -136,6 +138,21 @@ def run_history(story: dict, ops, browser=False, per_call_s=10, on_step=None):
                         obs = ("ok",)
                     elif kind == "read":
                         read_battery(eng)
+                        obs = ("ok",)
+                    elif kind == "reload":
+                        # save -> JSON text -> load into a FRESH engine; play continues on that engine
+                        doc = json.loads(json.dumps(eng.save_state()))
+                        eng2 = cls(copy.deepcopy(story))
+                        eng2.load_state(doc)
+                        eng = eng2
+                        obs = ("ok",)
+                    elif kind == "save":
+                        slot = json.loads(json.dumps(eng.save_state()))
+                        obs = ("ok",)
+                    elif kind == "load":
+                        # the SAME document object every time: a load must not make the game share data with it
+                        if slot is not None:
+                            eng.load_state(slot)
                         obs = ("ok",)
                     else:
                         raise AssertionError(kind)
@@ -197,6 +214,8 @@ def op_term(op, tb: S.Tables):
         return "OpReset"
     if k == "read":
         return "OpRead"
+    if k in ("reload", "save", "load"):
+        return {"reload": "OpReload", "save": "OpSave", "load": "OpLoad"}[k]
     raise Unsupported(k)
 
 
